@@ -3,8 +3,8 @@ Liveness: self-composition (spec/NonInterf.tla) from the end of every block for 
 Assertion crawler: self-composition (spec/Crawler.tla) from the ENTRY of every block b (assertion_crawler::get_results(b)
 is the IN fact of the backward analysis) for every listed assertion a and every variable NOT listed for (b, a); plus
 single-copy reachability: every assertion at which an execution from the entry of b stands must be listed for b."""
-import json, os, re, collections
-import vlib, proggen
+import json, os, re, collections, random
+import vlib, proggen, hist
 from vlib import Check, build, tlc, workdir
 
 BOX, UNIV, MAXSTEPS = 1, 400, 24
@@ -33,6 +33,28 @@ def gen(ck, n):
         if ck.rng.random() < 0.3:
             b = ck.rng.choice(p["blocks"])
             b["stmts"].insert(ck.rng.randint(0, len(b["stmts"])), {"op": "unreach"})
+        ps.append(p)
+    return ps
+
+
+def gen_directed(seed, n, first_id):
+    """crawler half only: shapes with guarded branches and loops, and an assertion at the end of the exit block (behind the
+    re-join blocks of the branches) and of one more block, so that control dependences and flows through the branch taken
+    are exercised often.  Own generator: the liveness half sees exactly the programs it saw before."""
+    rng = random.Random(seed)
+    ps = []
+    for i in range(n):
+        shape = rng.choice(["diamond", "diamond", "loop", "loop", "nested", "twoloops", "entryloop", "irreducible", "selfloop"])
+        p = proggen.program(rng, first_id + i, shape=shape, asserts=True, nints=3, nbools=0, profile="c17", nstmts=(0, 2))
+        nid = 1 + max([s["id"] for b in p["blocks"] for s in b["stmts"] if s["op"] == "assert"] or [0])
+        for blk in [p["exit"], rng.randint(1, len(p["blocks"]))]:
+            c = hist.cst(rng, [1, 2, 3], rels=("le", "le", "lt", "eq", "ne"), maxterms=1, kmax=1)
+            p["blocks"][blk - 1]["stmts"].append({"op": "assert", "c": c, "id": nid})
+            nid += 1
+        outs = sorted(rng.sample([1, 2, 3], rng.randint(0, 2)))
+        p["fn"] = {"name": "f", "in": [], "out": outs}
+        p["outs"] = outs
+        p["directed"] = 1
         ps.append(p)
     return ps
 
@@ -90,11 +112,6 @@ def explore(ck, label, ps, obs=None):
 
 
 # ---------------------------------------------------------------------------------------------- assertion crawler
-STATE_RE = re.compile(r"/\\ blk2 = (\d+)\n/\\ blk1 = (\d+)\n/\\ from_block = (\d+)\n/\\ rejoin = (\d+)\n/\\ md = \"(\w)\"\n/\\ variable = (\d+)\n"
-                      r"/\\ idx2 = (\d+)\n/\\ idx1 = (\d+)\n/\\ assertion = (\d+)\n/\\ prog = (\d+)\n/\\ diverged = (\d+)\n"
-                      r"/\\ state2 = (.*?)\n/\\ state1 = (.*?)\n")
-
-
 def crawl_records(ps, crawl):
     merged = []
     for p in ps:
@@ -109,9 +126,9 @@ def crawl_records(ps, crawl):
 
 
 def parse_states(out):
-    """the states of the last error trace printed by TLC (ALIAS Compact; TLC prints record fields in its own order)"""
+    """the states of the error trace printed by TLC (ALIAS Compact; TLC prints record fields in its own order)"""
     sts = []
-    for blk in re.split(r"\nState \d+: ", out)[1:]:
+    for blk in re.split(r"\nState \d+: |is violated by the initial state:\n", out)[1:]:
         d = {}
         for k, val in re.findall(r"/\\ (\w+) = (.*)", blk):
             d[k] = val.strip()
@@ -126,53 +143,103 @@ def explore_crawl(ck, label, ps, obs=None, count=True):
     merged = crawl_records(ps, crawl)
     vlib.write_ndjson(tp, merged)
     ok = [q for q in merged if q["err"] == 0]
-    if count:
-        c = ck.cov
-        c["crawler_programs"] = c.get("crawler_programs", 0) + len(ok)
-        c["crawler_no_claim_crash"] = c.get("crawler_no_claim_crash", 0) + len(merged) - len(ok)
-        c["crawler_block_facts"] = c.get("crawler_block_facts", 0) + sum(len(f) for q in ok for f in q["crawl"])
-        c["crawler_listed_variables"] = c.get("crawler_listed_variables", 0) + sum(len(x["vs"]) for q in ok for f in q["crawl"] for x in f)
-        c["crawler_unlisted_pairs_refutation_attempted"] = c.get("crawler_unlisted_pairs_refutation_attempted", 0) + \
-            sum(q["nv"] - len(x["vs"]) for q in ok for f, t in zip(q["crawl"], q["ctop"]) if not t for x in f)
-        c["crawler_top_blocks"] = c.get("crawler_top_blocks", 0) + sum(sum(q["ctop"]) for q in ok)
-        c["crawler_programs_with_assertions"] = c.get("crawler_programs_with_assertions", 0) + \
-            sum(1 for q in ok if any(s["op"] == "assert" for b in q["blocks"] for s in b["stmts"]))
-        c["crawler_programs_with_facts"] = c.get("crawler_programs_with_facts", 0) + sum(1 for q in ok if any(q["crawl"]))
     r = tlc("Crawler", "Crawler", "c18c-" + label, env={"PROGRAMS": tp, "BOX": BOX, "UNIV": UNIV, "MAXSTEPS": CMAXSTEPS}, timeout=2400)
     if count:
+        c = ck.cov
+
+        def add(k, n):
+            c[k] = c.get(k, 0) + n
         ck.add_tlc(r, "Crawler/" + label)
+        add("crawler_programs", len(ok))
+        add("crawler_no_claim_crash", len(merged) - len(ok))
+        add("crawler_block_assertion_facts", sum(len(f) for q in ok for f in q["crawl"]))
+        add("crawler_listed_variables", sum(len(x["vs"]) for q in ok for f in q["crawl"] for x in f))
+        add("crawler_unlisted_variable_facts_attacked", sum(q["nv"] - len(x["vs"]) for q in ok for f, t in zip(q["crawl"], q["ctop"]) if not t for x in f))
+        add("crawler_top_blocks", sum(sum(q["ctop"]) for q in ok))
+        add("crawler_programs_with_facts", sum(1 for q in ok if any(q["crawl"])))
+        # measured by TLC (PrintT counters of spec/Crawler.tla): what the executions really did
+        ra = set(tuple(x) for x in r.tuples("RA"))
+        pa = set(tuple(x) for x in r.tuples("PA"))
+        add("crawler_reached_block_assertion_pairs", len(ra))
+        add("crawler_programs_with_reached_assertion", len(set(x[0] for x in ra)))
+        add("crawler_unlisted_variable_facts_with_both_copies_at_assertion", len(set((x[0],) + tuple(x[2:]) for x in pa)))
+        add("crawler_pairs_at_assertion_after_different_branches", len(set(x for x in pa if x[1] == 1)))
+        ck.cov["traces_validated_against_impl"] += len(ok)
+        ck.cov["evaluations"] += len(ok)
+        ck.cov["distinct_nontrivial"] += len(set(x[0] for x in ra))
     v = None
     if r.is_violation:
         sts = parse_states(r.out)
         if not sts:
             raise vlib.Broken("cannot parse crawler violation:\n" + r.out[-2000:])
         last = sts[-1]
-        kind = sorted(set(r.violated))
         v = {"prog": int(last["prog"]), "from_entry_of_block": int(last["from_block"]), "assertion": int(last["assertion"]),
-             "variable": int(last["variable"]), "violated": kind, "mode": last["md"].strip('"'), "diverged": int(last["diverged"]),
+             "variable": int(last["variable"]), "violated": sorted(set(r.violated)), "mode": last["md"].strip('"'),
+             "diverged": int(last["diverged"]),
              "execution": [{k: s[k] for k in ("md", "blk1", "idx1", "state1", "blk2", "idx2", "state2", "rejoin")} for s in sts]}
     return v, merged, r
 
 
-def reached_assertions(ck, merged):
-    """coverage only: how many (block, assertion) facts are listed (= upper bound of what executions reach)"""
-    return sum(len(f) for q in merged if q["err"] == 0 for f in q["crawl"])
+def report_crawl(ck, prog, facts, v1, kinds):
+    kind = v1["violated"][0]
+    kinds[kind] += 1
+    last = v1["execution"][-1]
+    aid = v1["assertion"]
+    if kind == "ReachedListed":   # reporting only: the id of the assertion the execution stands at
+        aid = prog["blocks"][int(last["blk1"]) - 1]["stmts"][int(last["idx1"]) - 1]["id"]
+        v1["reached_assertion"] = aid
+    ck.violation("C18: assertion crawler, program %d, facts at the ENTRY of block b%d, assertion id %d, variable %d: %s [%s]; last "
+                 "states %s (copy 1 at b%s idx %s) / %s (copy 2 at b%s idx %s)" %
+                 (v1["prog"], v1["from_entry_of_block"], aid, v1["variable"], CRAWL_WHAT[kind], ",".join(v1["violated"]),
+                  last["state1"], last["blk1"], last["idx1"], last["state2"], last["blk2"], last["idx2"]),
+                 {"half": "crawler", "program": prog, "crawler_facts_at_block_entry": facts, "violation": v1})
+
+
+def crawl_half(ck, label, ps, kinds, max_viol, sample=False, individually=False):
+    """runs spec/Crawler.tla on the programs; every violation is confirmed on the single program and reported"""
+    if individually:   # few programs (regression cases): one TLC run each
+        obs = observe(label, ps)
+        for i, p in enumerate(ps):
+            v, m1, _ = explore_crawl(ck, "%s_%d" % (label, i), [p], obs)
+            if v:
+                report_crawl(ck, p, m1[0]["crawl"], v, kinds)
+        return
+    remaining = ps
+    for attempt in range(max_viol + 1):
+        v, cmerged, _ = explore_crawl(ck, "%s_%d" % (label, attempt), remaining, None, count=(attempt == 0))
+        if sample and attempt == 0:
+            q = next((x for x in cmerged if any(any(len(f["vs"]) > 0 for f in fs) for fs in x["crawl"])), cmerged[0])
+            ck.sample({"blocks": q["blocks"], "crawler_facts_at_block_entry": q["crawl"]}, limit=6)
+        if v is None:
+            return
+        if attempt == max_viol:
+            ck.assumptions.append("crawler half, batch %s: stopped after %d reported violations; further programs may violate" % (label, max_viol))
+            return
+        prog = next(p for p in remaining if p["id"] == v["prog"])
+        v1, m1, _ = explore_crawl(ck, label + "_confirm", [prog], None, count=False)   # the single failing case
+        if v1 is None:
+            raise vlib.Broken("crawler violation on program %d not reproduced in isolation" % v["prog"])
+        report_crawl(ck, prog, m1[0]["crawl"], v1, kinds)
+        remaining = [p for p in remaining if p["id"] != v["prog"]]
 
 
 def run(tier, seed):
     ck = Check("C18", tier, seed + 8000)
     build("dataflow_runner")
     n = 300 if tier == "quick" else 5000
+    ndir = 150 if tier == "quick" else 200      # crawler-directed programs per batch
     done = k = 0
     kinds = collections.Counter()
-    while done < n and len(ck.violations) < 10:
+    rd = os.path.join(vlib.ROOT, "tools", "regress")
+    regress = [json.load(open(os.path.join(rd, f))) for f in sorted(os.listdir(rd)) if f.startswith("c18_")]
+    while done < n and len(ck.violations) < 12:
         m = min(500, n - done)
         ps = gen(ck, m)
         for p in ps:
             p["id"] += done
+        gen_ps = list(ps)
         if k == 0:   # fixed regression cases (replays of earlier findings)
-            rd = os.path.join(vlib.ROOT, "tools", "regress")
-            ps += [json.load(open(os.path.join(rd, f))) for f in sorted(os.listdir(rd)) if f.startswith("c18_")]
+            ps += regress
         obs = observe("b%d" % k, ps)
         # ---- liveness half
         remaining = ps
@@ -188,44 +255,30 @@ def run(tier, seed):
                          "block b%d idx %d with states %s / %s" % (v["variable"], v["dead_at_end_of_block"], v["violated"], v["block"],
                                                                   v["idx"], v["state1"], v["state2"]), {"program": prog, "violation": v})
             remaining = [p for p in remaining if p["id"] != v["prog"]]
-        # ---- assertion-crawler half
-        remaining = ps
-        for attempt in range(6):
-            v, cmerged, _ = explore_crawl(ck, "b%d_%d" % (k, attempt), remaining, obs if attempt == 0 else None, count=(attempt == 0))
-            if k == 0 and attempt == 0:
-                q = next((x for x in cmerged if any(any(len(f["vs"]) > 0 for f in fs) for fs in x["crawl"])), cmerged[0])
-                ck.sample({"blocks": q["blocks"], "crawler_facts_at_block_entry": q["crawl"]})
-            if v is None:
-                break
-            prog = next(p for p in remaining if p["id"] == v["prog"])
-            # confirm by re-running the single failing program
-            v1, _, _ = explore_crawl(ck, "b%d_confirm" % k, [prog], None, count=False)
-            if v1 is None:
-                raise vlib.Broken("crawler violation on program %d not reproduced in isolation" % v["prog"])
-            kinds[v1["violated"][0]] += 1
-            facts = next(q for q in cmerged if q["id"] == prog["id"])["crawl"]
-            ck.violation("C18: assertion crawler, program %d, facts at the entry of block b%d, assertion id %d, variable %d: %s [%s]; last "
-                         "states %s / %s at b%s idx %s" % (v1["prog"], v1["from_entry_of_block"], v1["assertion"], v1["variable"],
-                                                          CRAWL_WHAT[v1["violated"][0]], ",".join(v1["violated"]),
-                                                          v1["execution"][-1]["state1"], v1["execution"][-1]["state2"],
-                                                          v1["execution"][-1]["blk1"], v1["execution"][-1]["idx1"]),
-                         {"half": "crawler", "program": prog, "crawler_facts_at_block_entry": facts, "violation": v1})
-            remaining = [p for p in remaining if p["id"] != v["prog"]]
+        # ---- assertion-crawler half: the regression cases on their own (cheap, every one is reported), then the
+        #      generated programs together with crawler-directed ones
+        if k == 0 and regress:
+            crawl_half(ck, "reg", regress, kinds, 0, individually=True)
+        cps = gen_ps + gen_directed(ck.seed * 1000 + k, ndir, 700001 + k * 1000)
+        crawl_half(ck, "c%d" % k, cps, kinds, 2 if tier == "quick" else 3, sample=(k == 0))
         done += m
         k += 1
     ck.cov["crawler_violation_kinds"] = dict(kinds)
     ck.cov["rule"] = ("seeded CFGs with assertions, `unreachable` statements in the middle of blocks and a function declaration with 0-2 "
                       "outputs. Liveness: for EVERY block and EVERY variable reported dead at its end, every pair of box states differing "
-                      "only in that variable is run in lock-step for up to %d steps; non-trivial = programs with at least one dead fact "
-                      "(distinct_nontrivial). Crawler: for EVERY block b, every assertion a listed at the entry of b and EVERY variable not "
-                      "listed for (b, a), every pair of box states differing only in that variable is run (lock-step, separate runs between "
-                      "a branch whose outcome differs and its re-join block, lock-step again) for up to %d steps; plus every single "
-                      "execution from the entry of every block (reached assertions must be listed); crawler_* counters are measured from "
-                      "the exported facts" % (MAXSTEPS, CMAXSTEPS))
+                      "only in that variable is run in lock-step for up to %d steps; dead_facts = such facts. Crawler (the same programs "
+                      "plus crawler-directed ones with guarded branches/loops and assertions behind the joins): for EVERY block b, every "
+                      "assertion a listed at the entry of b and EVERY variable not listed for (b, a), every pair of box states differing "
+                      "only in that variable is run (lock-step; separate runs between a branch whose outcome differs and its re-join "
+                      "block; lock-step again) for up to %d steps; plus every single execution from the entry of every block (reached "
+                      "assertions must be listed). crawler_* counters: *_facts* from the exported facts, reached/both_copies/pairs_at_assertion_"
+                      "after_different_branches measured by TLC. distinct_nontrivial = liveness programs with a dead fact + crawler "
+                      "programs in which an execution reaches an assertion" % (MAXSTEPS, CMAXSTEPS))
     ck.assumptions += ["statement alphabet without division (constant-magnitude changes)",
                        "crawler: intra-procedural use (no call sites, empty summary table), integer variables only",
-                       "crawler: termination-insensitive contract: a copy that fails an assume/assert that is not a branch guard "
-                       "stops and nothing more is claimed for that pair; branches whose block cannot reach the exit: no claim",
+                       "crawler: termination-insensitive contract: a copy that fails an assume/assert that is not a branch guard (leading "
+                       "assumes of a block entered by a goto) stops and nothing more is claimed for that pair; a branch whose outcomes "
+                       "are not mutually exclusive for the pair, or whose block cannot reach the exit block: no claim",
                        "values -%d..%d at the start and for havoc" % (BOX, BOX)]
     return ck.finish()
 
